@@ -14,6 +14,8 @@ HARNESSES = [
     Harness('c05_tuple_unchanged_both_ways', 'value.tuple', G + 'tuple<u8, u64>', bounded=FULL),
     Harness('c05_option_unchanged_both_ways', 'value.option', G + 'option<u32>', bounded=FULL),
     Harness('c05_result_unchanged_both_ways', 'value.result', G + 'result<u32, u8>', bounded=FULL),
+    Harness('c05_scalar_record_unchanged_both_ways', 'value.scalar_record', G + 'record { bool, char, s8, s16, s64, f32, f64 }', bounded=FULL),
+    Harness('c05_flags_32_and_nested_option_unchanged_both_ways', 'value.flags_32_and_nested_option', G + 'flags with 32 members; option<option<u8>>', bounded=FULL),
     Harness('c05_result_with_one_payload_unchanged_both_ways', 'value.result_one_payload', G + 'result<u32> and result<_, u8>', bounded=FULL),
     Harness('c05_flags_and_enum_unchanged_both_ways', 'value.flags_and_enum', G + 'flags, enum', bounded=FULL),
     Harness('c05_variant_numeric_cases_unchanged_both_ways', 'value.variant_numeric_cases', G + 'variant with u32 / u64 / string cases (joined 64-bit-or-pointer slot), numeric cases', bounded=FULL),
@@ -36,6 +38,9 @@ HARNESSES = [
     Harness('c05_list_of_strings_result_len2', 'value.list_of_strings_result_len2', G + 'list<string> (element-wise list), 2 elements returned', bounded=HEAP),
     Harness('c05_list_of_strings_param_len1', 'value.list_of_strings_param_len1', G + 'list<string> (element-wise list), 1 element sent', bounded=HEAP),
     Harness('c05_list_of_strings_param_len2', 'value.list_of_strings_param_len2', G + 'list<string> (element-wise list), 2 elements sent', bounded=HEAP),
+    Harness('c05_import_result_list_of_strings_len0', 'value.import_result_list_of_strings_len0', G.replace('export trampoline(s)', 'import wrapper') + 'list<string> RETURNED by an import, 0 element(s)', bounded=HEAP.replace('export direction only', 'import direction')),
+    Harness('c05_import_result_list_of_strings_len1', 'value.import_result_list_of_strings_len1', G.replace('export trampoline(s)', 'import wrapper') + 'list<string> RETURNED by an import, 1 element(s)', bounded=HEAP.replace('export direction only', 'import direction')),
+    Harness('c05_import_result_list_of_strings_len2', 'value.import_result_list_of_strings_len2', G.replace('export trampoline(s)', 'import wrapper') + 'list<string> RETURNED by an import, 2 element(s)', bounded=HEAP.replace('export direction only', 'import direction')),
 ]
 # nothing is thorough-only since list lengths are fixed per harness
 THOROUGH = [
